@@ -124,7 +124,7 @@ BaseCfg(b) == CASE Mode = "C03" -> (IF b[1] = "Pair" THEN C03Pair ELSE C03Base(b
 \* ------------------------------------------------------------------ action palettes
 T1 == IF Tier = "quick" THEN {<<4, -8, 12>>} ELSE {<<0, 0, 0>>, <<4, -8, 12>>, <<-6, 2, 0>>}
 T2 == {<<-2, 6, 4>>}
-Gens == {Rx90, Rz90, R111}
+Gens == IF Tier = "quick" THEN {Rz90, R111} ELSE {Rx90, Rz90, R111}
 MoveActs(d) == IF d = 0 THEN {[name |-> "RigidMove", g |-> g, t |-> t] : g \in Rots, t \in T1}
                ELSE {[name |-> "RigidMove", g |-> g, t |-> t] : g \in Gens, t \in T2}
 KSet == IF Tier = "quick" THEN {-9, -6, -4, -2, 2, 5, 9} ELSE (-9..9) \ {0}
